@@ -113,8 +113,10 @@ def header_agreement(run, label, queries, recsA, maxA, recsB='R_none', maxB=0):
     pyobs = []
     texts = []
     for case in res.cases:
-        pq = engine.render_query(case, engine.Plain(), 'py')
-        jq = engine.render_query(case, engine.Plain(), 'js')
+        # varied spellings of the field references (aN / a[N] / a.name / a["name"]): all must name the column alike in both ports
+        sp = engine.Spelling(ec.case_key(case) + str(run.seed))
+        pq = engine.render_query(case, sp, 'py')
+        jq = engine.render_query(case, engine.Spelling(ec.case_key(case) + 'js' + str(run.seed)), 'js')
         pyobs.append(engine.run_case_py(mods, case, pq))
         reqs.append(engine.js_request(case, jq))
         texts.append((pq, jq))
